@@ -55,6 +55,7 @@ class State(object):
     if getattr(self, 'event_mode', False):
       s.event_mode = True
       s.allocidx = getattr(self, 'allocidx', 0)
+      s.withidx = getattr(self, 'withidx', 0)
     return s
 
   def assume(self, f):
@@ -171,6 +172,10 @@ def assume_type(v, st, world=None):
     it = st.heap.item(v.t, ix)
     rt = box_str(unbox_str(it)) if v.ty.args[0].kind == 'str' else box_int(unbox_int(it))
     st.assume(z3.ForAll([ix], z3.Implies(z3.And(ix >= 0, ix < st.heap.len(v.t)), rt == it)))
+  if k == 'dict' and v.ty.args and v.ty.args[0].kind == 'obj':
+    # declared key type: every key is an instance of it
+    e = z3.Const(fresh_name('tk'), U)
+    st.assume(z3.ForAll([e], z3.Implies(st.heap.dom(v.t, e), z3.And(subcls(typeof(e), cls_const(v.ty.args[0].name)), e != NONE))))
   if k == 'opt' and v.ty.args and v.ty.args[0].kind == 'obj':
     st.assume(z3.Implies(v.t != NONE, z3.And(subcls(typeof(v.t), cls_const(v.ty.args[0].name)), kindof(v.t) == 0)))
   if k in ('set', 'list', 'vtuple') and v.ty.args and v.ty.args[0].kind == 'obj':
@@ -240,6 +245,11 @@ def as_setpred(v, st):
     us = [to_u(x, st) for x in v.items]
     return lambda e: z3.Or([e == u for u in us]) if us else z3.BoolVal(False)
   if isinstance(v, VRef):
+    if v.ty.kind == 'opt' and v.ty.args and v.ty.args[0].kind in ('set', 'dict', 'list', 'vtuple'):
+      inner = VRef(v.t, v.ty.args[0])
+      if hasattr(v, 'heap'):
+        inner = VOldRef(v.t, v.ty.args[0], v.heap)
+      return as_setpred(inner, st)
     k = v.ty.kind
     heap = heap_of(v, st)
     if k in ('set', 'any', 'opt', 'union'):
